@@ -24,14 +24,25 @@ def make(rng, eta, slow=False):
         with contextlib.redirect_stdout(io.StringIO()):
             ma = artlib.TopoART(artlib.FuzzyART(rho=rng.choice([0.3, 0.6, 0.8]), alpha=1e-3, beta=1.0), beta_lower=0.5,
                                 tau=rng.choice([2, 3, 4, 6]), phi=rng.choice([1, 2]))
-    kind = "art2a-slow" if slow else rng.choice(["fuzzy", "fuzzy", "fuzzy-slow", "art2a-slow"])
+    elif rng.random() < 0.2:        # a row module whose clusters are groups of categories (n_clusters < number of weights)
+        r = rng.choice([0.6, 0.8, 0.9])
+        ma = artlib.DualVigilanceART(artlib.FuzzyART(rho=r, alpha=1e-3, beta=1.0), rho_lower_bound=r * rng.choice([0.25, 0.5, 0.75]))
+    kind = "art2a-slow" if slow else rng.choice(["fuzzy", "fuzzy", "fuzzy-slow", "art2a-slow", "dualvig"])
     if kind == "fuzzy":
-        mb = artlib.FuzzyART(rho=rng.choice([0.0, 0.3, 0.6, 0.9]), alpha=1e-3, beta=1.0)
+        p = dict(rho=rng.choice([0.0, 0.3, 0.6, 0.9]), alpha=1e-3, beta=1.0)
+        mk = lambda: artlib.FuzzyART(**p)
     elif kind == "fuzzy-slow":
-        mb = artlib.FuzzyART(rho=rng.choice([0.6, 0.9]), alpha=1e-3, beta=rng.choice([0.2, 0.5]))
+        p = dict(rho=rng.choice([0.6, 0.9]), alpha=1e-3, beta=rng.choice([0.2, 0.5]))
+        mk = lambda: artlib.FuzzyART(**p)
+    elif kind == "dualvig":
+        r = rng.choice([0.6, 0.8, 0.9]); lb = r * rng.choice([0.25, 0.5, 0.75])
+        mk = lambda: artlib.DualVigilanceART(artlib.FuzzyART(rho=r, alpha=1e-3, beta=1.0), rho_lower_bound=lb)
     else:       # slow learning: with several epochs a column category can lose all its members
-        mb = artlib.ART2A(rho=rng.choice([0.8, 0.9, 0.95, 0.99]), alpha=1e-7, beta=0.2)
-    return artlib.BARTMAP(ma, mb, eta=float(eta))
+        p = dict(rho=rng.choice([0.8, 0.9, 0.95, 0.99]), alpha=1e-7, beta=0.2)
+        mk = lambda: artlib.ART2A(**p)
+    est = artlib.BARTMAP(ma, mk(), eta=float(eta))
+    est._verif_mk_b = mk
+    return est
 
 
 def run(rng):
@@ -85,6 +96,9 @@ def run(rng):
             sig = "BARTMAP.fit/singleton-column-cluster-ValueError"
         elif isinstance(e, ValueError) and "X_a has length 0" in str(e):
             sig = "BARTMAP.fit/empty-column-cluster-ValueError"
+        elif (isinstance(e, ValueError) and "at least one array" in str(e) and type(est.module_a).__name__ == "TopoART"
+              and len(est.module_a.W) == 0):
+            sig = "BARTMAP.fit/topo-row-module-all-pruned-ValueError"
         else:
             sig = "BARTMAP.fit/raises"
         fails.append({"signature": sig, "text": f"fit on a {n}x{m} matrix raises {type(e).__name__}: {str(e)[:80]}", "replay": rep})
@@ -102,19 +116,28 @@ def run(rng):
         for k in range(nA * nB):
             cover += np.outer(R[k], Cc[k]).astype(int)
         if not np.all(cover == 1):
-            f("partition", "some cell belongs to no bicluster or to several")
+            noise = [i for i, l in enumerate(ra) if l == -1]
+            if type(est.module_a).__name__ == "TopoART" and noise and np.all(np.delete(cover, noise, axis=0) == 1) and np.all(cover[noise] == 0):
+                f("topo-row-module-noise-rows", f"rows {noise} were labelled -1 (noise) by the pruning TopoART row module and belong to no bicluster")
+            else:
+                f("partition", "some cell belongs to no bicluster or to several")
         for k in range(nA * nB):
             if list(R[k]) != [l == k // nB for l in ra] or list(Cc[k]) != [l == k % nB for l in cb]:
                 f("membership", f"bicluster {k} disagrees with row_labels_/column_labels_")
                 break
     # the column clustering is what the column module alone produces on the transposed matrix
     import artlib
-    alone = type(est.module_b)(**{k: v for k, v in est.module_b.params.items()})
-    alone.d_min_, alone.d_max_ = est.module_b.d_min_, est.module_b.d_max_      # same remembered data bounds
+    alone = est._verif_mk_b()
+    if type(alone).__name__ == "DualVigilanceART":
+        alone.base_module.d_min_, alone.base_module.d_max_ = est.module_b.base_module.d_min_, est.module_b.base_module.d_max_
+    else:
+        alone.d_min_, alone.d_max_ = est.module_b.d_min_, est.module_b.d_max_      # same remembered data bounds
     Xb = alone.prepare_data(X.T)
     alone.fit(Xb, max_iter=epochs)
     if list(alone.labels_) != cb:
         f("columns-eq-module-b", "column_labels_ differ from the column module run alone on X^T")
+    if min(ra + cb + [0]) < 0:
+        return None, fails, rep          # noise labels (-1): outside the model's label type; judged by the oracle above
     case = (f"(mkBCase {natlist(ra)} {natlist(cb)} {nA}%nat {nB}%nat {coq_list([boollist(r) for r in R.tolist()])} "
             f"{coq_list([boollist(r) for r in Cc.tolist()])})")
     return case, fails, rep
